@@ -381,6 +381,37 @@ theorem skel_rmw_locked :
     Skel.repo_UpdatePortMappingStats = ["LockPortMapping", "r.GetPortMapping", "r.UpdatePortMapping"] ∧
     Skel.repo_UpdatePortMappingStatus = ["LockPortMapping", "r.GetPortMapping", "r.UpdatePortMapping"] := by decide
 
+/-! ## Through another node: the source node attaches the tunnel the target node authorised -/
+
+/-- **The forwarded connection joins exactly the tunnel it named.**  For every tunnel id — any characters: blanks,
+tabs, line breaks, `|` — and every node id (which contains no `|`): the bridge `handleTargetReady` attaches the
+forwarded connection to is the bridge registered under that very id.  Together with `C04_main` (the target node
+forwards only a request entitled to the mapping of the route registered under that id, and a route and its bridge
+are registered by the same `startSourceBridge`) a connection reaches, through another node, only a tunnel of a
+mapping it is entitled to — never a tunnel whose id merely resembles the one it named. -/
+theorem crossnode_attaches_named_tunnel (bs : Bridges) (tunnelID nodeID : List Char)
+    (hn : ∀ c ∈ nodeID, c ≠ '|') :
+    handleTargetReady bs (encodeTargetReady tunnelID nodeID) = bs.lookup tunnelID := by
+  unfold handleTargetReady
+  rw [decode_encode_targetReady tunnelID nodeID hn]
+
+/-- A different tunnel id is a different bridge: the victim's bridge is attached only for the victim's id. -/
+theorem crossnode_other_id_other_bridge (victim attacker nodeID : List Char) (mv ma : String)
+    (hne : attacker ≠ victim) (hn : ∀ c ∈ nodeID, c ≠ '|') :
+    handleTargetReady [(victim, mv), (attacker, ma)] (encodeTargetReady attacker nodeID) = some ma := by
+  rw [crossnode_attaches_named_tunnel _ _ _ hn]
+  have h1 : (victim == attacker) = false := by simpa using hne.symm
+  simp [Bridges.lookup, List.find?, h1]
+
+-- the victim's waiting tunnel "vt-1" (mapping M) and the attacker's own " vt-1" (mapping F) on the source node
+def bridgesAB : Bridges := [("vt-1".toList, "M"), (" vt-1".toList, "F")]
+example : handleTargetReady bridgesAB (encodeTargetReady " vt-1".toList "node-B".toList) = some "F" := by decide
+example : handleTargetReady bridgesAB (encodeTargetReady "vt-1|x".toList "node-B".toList) = none := by decide
+-- what a decoder that trims the payload would do: the attacker's forwarded target lands on the victim's tunnel
+example : (decodeTargetReadyTrimmed (encodeTargetReady " vt-1".toList "node-B".toList)).map (·.1) = some "vt-1".toList := by
+  decide
+example : holdsTwoNode ⟨true, true⟩ = false ∧ holdsTwoNode ⟨false, false⟩ = true := by decide
+
 /-! ## T2: the order of effectful steps in the source is the one the model assumes -/
 
 /-- `handleTunnelOpen`: control-connection lookup and `HandleTunnelOpen` come BEFORE the bridge lookup, the
